@@ -143,6 +143,9 @@ def sut_arg(arg, ty, bytes_mode):
 UNSUPPORTED = 'ykpnzvwtjmqIOU!$&@,;:~^|é中_)/\\"\' \x00'
 
 
+QUANTITY_BORDERS = [2 ** 31 - 2, 2 ** 31 - 1, 2 ** 31, 2 ** 31 + 1, 2 ** 31 + 2, 2 ** 32 - 1, 2 ** 32, 2 ** 32 + 1, 2 ** 63 - 1, 2 ** 63, 2 ** 64 - 1, 2 ** 64, 2 ** 64 + 1, 10 ** 10, 10 ** 19]
+
+
 class C19(Property):
     id = 'C19'
     configs = ('A',)
@@ -169,8 +172,48 @@ class C19(Property):
                   '%#g', '%#.3g', '%.10g', '%+g', '%b', '%5b']:
             for bm in (False, True):
                 yield {'template': t, 'bytes': bm, 'args': 'auto'}
+        # width / precision quantities at the borders of the machine-integer ranges: the template is only split (formatting a
+        # width of 2^31-1 is not attempted)
+        for q in QUANTITY_BORDERS:
+            for t in ('%%.%dd' % q, '%%%dd' % q, 'ab%%-%dx' % q, '%%(k).%df' % q, '%%5.%ds%%d' % q):
+                for bm in (False, True):
+                    yield {'template': t, 'bytes': bm, 'args': None, 'limits': True}
+
+    def check_limits(self, case, ctx):
+        """Python's rule for a written quantity: a precision above INT_MAX (2^31-1) is 'precision too big', a width above
+        PY_SSIZE_T_MAX (2^63-1) is 'width too big'; everything up to 2^31-1 is accepted. (Widths between 2^31 and 2^63 would be
+        accepted by CPython and then fail on memory; this library's quantities are 32-bit, so that band is only required not to panic.)"""
+        sut = ctx.sut('A')
+        t, bm = case['template'], case['bytes']
+        r = sut.call('cformat_bytes', template=t.encode('latin-1').hex()) if bm else sut.call('cformat_str', template=t)
+        if 'panic' in r or 'crash' in r:
+            return Failure('panic', case=case, reply=r)
+        try:
+            parts = ref_split(t, bm)
+        except RefError:
+            return None
+        verdict = 'accept'
+        for p in parts:
+            if 'spec' in p:
+                w, pr = p['spec']['width'], p['spec']['prec']
+                if isinstance(pr, int) and pr > 2 ** 31 - 1:
+                    verdict = 'reject'
+                elif isinstance(w, int) and w > 2 ** 63 - 1:
+                    verdict = 'reject'
+                elif isinstance(w, int) and w > 2 ** 31 - 1 and verdict == 'accept':
+                    verdict = 'unspecified'
+        ctx.count('quantity_limit_' + verdict)
+        if verdict == 'reject' and r.get('err') != 'IntTooBig':
+            return Failure('quantity_above_the_limit_not_rejected', case=case, got=r)
+        if verdict == 'accept' and 'err' in r:
+            return Failure('rejects_valid', case=case, got=r)
+        return None
 
     def gen(self, cs, ctx):
+        if cs.bool(12):
+            q = cs.pick(QUANTITY_BORDERS) + cs.pick([0, 0, 1, -1, 2, 10])
+            t = cs.pick(['%s', 'a%s', '%%d%s']) % (cs.pick(['%', '%-', '%0', '%(k)', '%#']) + (str(q) if cs.bool() else '.' + str(q)) + cs.pick('dsxfgc'))
+            return {'template': t, 'bytes': cs.bool(64), 'args': None, 'limits': True}
         bytes_mode = cs.bool(64)
         keyed = cs.bool(40)
         nparts = 1 + cs.choice(4)
@@ -282,6 +325,8 @@ class C19(Property):
         return out
 
     def check(self, case, ctx):
+        if case.get('limits'):
+            return self.check_limits(case, ctx)
         sut = ctx.sut('A')
         t, bm = case['template'], case['bytes']
         if bm and any(ord(c) > 255 for c in t):
